@@ -92,16 +92,23 @@ func solveOne(script string, timeoutS int, thorough bool) (final solveOutcome, a
 	}
 	definite := func(r string) bool { return r == "sat" || r == "unsat" }
 	got := 0
+	nDef := 0
 	for got < len(solvers) {
 		o := <-ch
 		got++
 		all = append(all, o)
-		if definite(o.result) && !definite(final.result) {
-			final = o
-			if !thorough {
+		if definite(o.result) {
+			nDef++
+			if !definite(final.result) {
+				final = o
+			}
+			// quick: first definite answer wins. thorough: two definite answers from
+			// different configurations are collected (and must agree, checked below);
+			// waiting for every configuration would cost the full timeout per obligation.
+			if !thorough || nDef >= 2 {
 				cancel()
 				go func() { wg.Wait() }()
-				return final, all
+				break
 			}
 		}
 	}
